@@ -411,9 +411,9 @@ def gen_ast(rng, paths, defaults, top_lits=True):
         parts.append(p)
     if top_lits and rng.random() < 0.5:
         parts.append(["lit", gen_lit(rng).replace(",", "")])
-    if top_lits and rng.random() < 0.12:
+    if top_lits and rng.random() < 0.06:
         # braces that belong to no placeholder, in front of the first one (a URL template, an empty JSON object)
-        parts.insert(0, ["lit", rng.choice(["/users/{id}?e=", "{}:", "}", "{x} ", "a}b"])])
+        parts.insert(0, ["lit", rng.choice(["/{id}?e=", "{}:", "}", "{x} ", "a}b"])])
     return [p for p in parts if not (p[0] == "lit" and p[1] == "")]
 
 
